@@ -72,6 +72,13 @@ theorem inv3_close {cfg : Cfg} {s s' : State} (h1' : Inv1 cfg s) (h2' : Inv2 cfg
   obtain ⟨e1, e2, e2b, e2c, e3, e3b, e3c, e4, h1, h2, h3, r1, r2, r3, d_end2⟩ := hi
   unfold_step at h <;> (repeat' split at h) <;> cases h <;> close_inv3
 
+theorem inv3_bgEnds {cfg : Cfg} {s s' : State} (h1' : Inv1 cfg s) (h2' : Inv2 cfg s) (hi : Inv3 cfg s)
+    (h : step good cfg s (.bgEnds) = some s') : Inv3 cfg s' := by
+  obtain ⟨c1, t1a, t_set, t_ne, t_len, t_armed, t_fired, n1, n2, u0, u3, u1⟩ := h1'
+  obtain ⟨a1, a2, g1, d_ne, d_wait, d_full, d_end, u2, u4, u5⟩ := h2'
+  obtain ⟨e1, e2, e2b, e2c, e3, e3b, e3c, e4, h1, h2, h3, r1, r2, r3, d_end2⟩ := hi
+  unfold_step at h <;> (repeat' split at h) <;> cases h <;> close_inv3
+
 theorem inv3_prodCancelled {cfg : Cfg} {s s' : State} (h1' : Inv1 cfg s) (h2' : Inv2 cfg s) (hi : Inv3 cfg s)
     (h : step good cfg s (.prodCancelled) = some s') : Inv3 cfg s' := by
   obtain ⟨c1, t1a, t_set, t_ne, t_len, t_armed, t_fired, n1, n2, u0, u3, u1⟩ := h1'
@@ -193,6 +200,7 @@ theorem inv3_step {cfg : Cfg} {s s' : State} {l : Label} (h1' : Inv1 cfg s) (h2'
   | ctxExpire => exact inv3_ctxExpire h1' h2' hi h
   | tick d => exact inv3_tick d h1' h2' hi h
   | close => exact inv3_close h1' h2' hi h
+  | bgEnds => exact inv3_bgEnds h1' h2' hi h
   | prodCancelled => exact inv3_prodCancelled h1' h2' hi h
   | prodSend => exact inv3_prodSend h1' h2' hi h
   | prodSendCancel => exact inv3_prodSendCancel h1' h2' hi h
